@@ -511,6 +511,19 @@ pub fn tricky_bases() -> Vec<Vec<Vec<Vec<(i64, i64)>>>> {
             vec![vec![(8, 2), (12, 0), (12, 4), (8, 2)]],
         ],
         vec![vec![
+            // a chain of touches: hole 1 has its leftmost vertex inside the bottom edge of the shell, hole 2 its
+            // rightmost vertex inside the upper edge of hole 1 that leaves that vertex
+            vec![(0, 0), (20, 0), (20, 20), (0, 20), (0, 0)],
+            vec![(4, 0), (12, 2), (8, 8), (4, 0)],
+            vec![(2, 6), (6, 4), (5, 9), (2, 6)],
+        ]],
+        vec![vec![
+            vec![(0, 0), (20, 0), (20, 20), (0, 20), (0, 0)],
+            vec![(2, 6), (5, 9), (6, 4), (2, 6)],
+            vec![(4, 0), (8, 8), (12, 2), (4, 0)],
+            vec![(14, 12), (16, 12), (15, 16), (14, 12)],
+        ]],
+        vec![vec![
             // spiral
             vec![(0, 0), (10, 0), (10, 10), (2, 10), (2, 4), (6, 4), (6, 6), (4, 6), (4, 8), (8, 8), (8, 2), (0, 2), (0, 0)],
         ]],
